@@ -21,7 +21,7 @@ package frag
 //@   ensures hdr(m) + len(m.Data) > maxSize && budget(m, maxSize) > 0 && nfrags(m, maxSize) <= 255 ==>
 //@       len(ret) == nfrags(m, maxSize) && forall(i, 0, nfrags(m, maxSize), fragOK(ret[i], m, i, budget(m, maxSize), nfrags(m, maxSize)) && hdr(m) + len(ret[i].Data) <= maxSize)
 //@   loop 0
-//@     invariant off == fragID*maxPayloadSize
+//@     invariant off == min(fragID*maxPayloadSize, len(fullPayload))
 //@     invariant maxPayloadSize > 0 && fragCount == nfrags(m, maxSize)
 //@     invariant fragCount*maxPayloadSize >= len(fullPayload) && (fragCount-1)*maxPayloadSize < len(fullPayload)
 //@     invariant 0 <= fragID && fragID <= fragCount
